@@ -2,7 +2,7 @@
 """Generates Props/Properties_<id>.v files: each states property theorems (statement printed by Coq from the proved
 lemma, so it is exactly what was proved) and closes them with `exact <lemma>`, followed by Print Assumptions."""
 import subprocess, re, sys, os
-COQ = "/verif/coq"
+COQ = os.path.join(os.path.dirname(os.path.dirname(os.path.abspath(__file__))), "coq")
 IMPORTS = ["Ctpg.Base.Prelude", "Ctpg.Model.Grammar", "Ctpg.Model.LRGen", "Ctpg.Model.Driver", "Ctpg.Model.Dfa", "Ctpg.Model.RegexFront", "Ctpg.Model.Diag",
            "Ctpg.Spec.Cfg", "Ctpg.Spec.LRSpec", "Ctpg.Spec.Lang", "Ctpg.Spec.Eval", "Ctpg.Spec.Conflict", "Ctpg.Valid.LRValid", "Ctpg.Valid.DfaValid", "Ctpg.Valid.SpecMatch"]
 SPEC = {
@@ -28,13 +28,23 @@ SPEC = {
     ("C18_same_token_stream_same_parse", "same_tokens_same_run", "two lexers that define the same token stream on a buffer (in particular a custom lexer and the generated one) give identical results, final stacks, contexts and parser trace lines"),
     ("C18_tokens_consumed_are_a_prefix_of_the_stream", "run_tok_inv_gh", "the terms the driver shifted or discarded are exactly a prefix of the token stream")]),
  "C05": ("Shift/reduce conflicts are resolved by the documented precedence rules",
-   ["Ctpg.Proofs.CellBasics", "Ctpg.Proofs.CellResolve", "Ctpg.Proofs.LRSound"],
+   ["Ctpg.Proofs.CellBasics", "Ctpg.Proofs.CellResolve", "Ctpg.Proofs.LRSound", "Ctpg.Valid.LRResolved", "Ctpg.Spec.Grouping", "Ctpg.Proofs.GroupingFacts", "Ctpg.Proofs.GroupingSpec", "Ctpg.Proofs.Grouping", "Ctpg.Proofs.GroupingConservative", "Ctpg.Proofs.GroupingAnalyze", "Ctpg.Proofs.GroupingUnique", "Ctpg.Proofs.GroupingPure", "Ctpg.Proofs.GroupingExamples", "Ctpg.Proofs.GroupingPureExamples"],
    [("C05_rule_is_the_documented_one", "solve_conflict_is_documented_rule", "solve_conflict is the documented rule: reduce iff the rule's precedence is greater, or equal with left associativity"),
     ("C05_cell", "C05_cell", "a cell with one reduction and any number of shift items, in any order, gets the documented choice, the conflict flag, the reduction's rule and the full target kernel"),
     ("C05_no_reduction_frame", "C05_no_reduce", "cells without a reduction are plain shifts without flag: precedence declarations do not touch them"),
     ("C05_no_shift_frame", "C05_no_shift", "cells with a single reduction and no shift are plain reductions without flag"),
     ("C05_flag_iff_conflict", "C05_sr_flag_iff", "the conflict flag is set exactly for shift/reduce conflicts and the kind is then the documented choice"),
-    ("C05_accepted_inputs_have_derivation_trees", "lr_sound", "whatever a table with resolved conflicts accepts is a derivation tree of the input (validate_sound does not require conflict-freedom)")]),
+    ("C05_accepted_inputs_have_derivation_trees", "lr_sound", "whatever a table with resolved conflicts accepts is a derivation tree of the input (validate_sound does not require conflict-freedom)"),
+    ("C05_grouping", "grouping", "CONSEQUENTLY, for every grammar, every table whose S/R cells are decided by the documented rule (validate_resolved, a decidable check discharged on the real tables) and every input of any length: in the tree the parser returns, every node e -> e t e has a left operand node (a t0 b) only if the documented rule says reduce for (rule of t0, t), and a right operand node (b t2 c) only if it says shift for (its own rule, t2)"),
+    ("C05_grouping_with_derivation", "grouping_derivation", "and that tree is a derivation tree of the input"),
+    ("C05_groups_by_precedence_then_associativity", "well_grouped_by_precedence", "in the usual vocabulary: an operator of lower precedence is never a direct operand of one of higher precedence; equal precedence nests to the left for left-associative and to the right otherwise"),
+    ("C05_resolved_cell_reading", "cell_resolved_iff", "what validate_resolved demands of one cell: the four cases of the documented resolution, nothing else"),
+    ("C05_conflict_free_tables_are_resolved_tables", "validate_implies_resolved", "no other cell is affected: a table that passes the conflict-free validator passes the resolved one"),
+    ("C05_operator_family_complete", "pure_complete", "pure operator grammars e -> e t_i e | atom (any number of operators, any declarations): the resolved table accepts every operator expression"),
+    ("C05_operator_family_unique", "pure_unique", "and, without explicit rule precedences, the returned tree is the ONLY well-grouped derivation tree of the input"),
+    ("C05_uniqueness_with_explicit_rule_precedence_refuted", "unique_refuted_explicit_prec", "REFUTED corner: with explicit rule precedences the choice relation need not be transitive and a second well-grouped tree exists (the parser still returns the tree of C05_grouping)"),
+    ("C05_grammar_is_ambiguous_parser_picks_documented_tree", "other_trees_not_well_grouped", "non-vacuity: the example grammars have other derivation trees of the same inputs that are not well grouped"),
+    ("C05_rules_without_explicit_precedence_are_plain", "analyze_binop_plain", "rule analysis: a rule without [n] gets the precedence and associativity of its last term")]),
  "C11": ("Diagnostics report every conflict and describe the real table",
    ["Ctpg.Proofs.CellBasics", "Ctpg.Proofs.CellResolve", "Ctpg.Proofs.GenCorrect", "Ctpg.Proofs.GenAnalyze"],
    [("C11_conflict_mark_iff_conflict", "C11_conflict_flag_iff", "for a cell without the completed root item: it is marked (S/R flag or R/R kind) iff its items have a shift/reduce or reduce/reduce conflict"),
@@ -56,7 +66,7 @@ SPEC = {
     ("C12_items_fit", "items_length_bound", "a duplicate-free list of well-formed items is no longer than the item address space")]),
 
  "C06": ("Parsing any byte string is memory-safe and terminates (index logic and bookkeeping; see DESIGN.md for the C++-level remainder)",
-   ["Ctpg.Valid.LRSafe", "Ctpg.Proofs.DriverBasics", "Ctpg.Proofs.SafeBasics", "Ctpg.Proofs.SafeDriver", "Ctpg.Proofs.SafeTerm", "Ctpg.Proofs.SafeDfa", "Ctpg.Proofs.DriverPos", "Ctpg.Proofs.BuilderTerm"],
+   ["Ctpg.Valid.LRSafe", "Ctpg.Proofs.DriverBasics", "Ctpg.Proofs.SafeBasics", "Ctpg.Proofs.SafeDriver", "Ctpg.Proofs.SafeTerm", "Ctpg.Proofs.SafeDfa", "Ctpg.Proofs.DriverPos", "Ctpg.Proofs.BuilderTerm", "Ctpg.Valid.LRProductive", "Ctpg.Proofs.TermViable", "Ctpg.Proofs.TermAll", "Ctpg.Proofs.TermGeneric"],
    [("C06_no_out_of_range_access", "no_crash_safe_ok", "every unchecked array/stack access of the driver (table row and column, rule_infos, erase/back/pop on the stacks, the goto after a reduction, the lexeme extent) is in range: the run never ends in Crash, for any input, options, stack capacity, functors, also through error recovery"),
     ("C06_table_indices_any_table", "no_crash_table_wf", "the table / rule_infos indices alone are in range for any dimensionally well-formed table, conflicts included"),
     ("C06_positions_stay_inside_the_buffer", "run_pos", "the cursor and the lexeme end never leave the buffer"),
@@ -64,6 +74,12 @@ SPEC = {
     ("C06_matcher_reads_each_byte_once", "dfa_match_reads_prefix", "the matcher reads a prefix of the input, left to right, each element at most once"),
     ("C06_matcher_length_within_input", "dfa_match_len_le", "the recognised length never exceeds the input"),
     ("C06_terminates_on_accepted_inputs", "accepted_fuel_exact", "an accepted parse takes exactly length(input) + nodes(tree) + 1 iterations"),
+    ("C06_terminates_on_every_input", "generic_run_halts_checked", "TERMINATION ON EVERY INPUT, accepted or not: for any functors, options, buffer and lexer (non-empty in-range lexemes), a table that passes term_checks (validated LR(1) automaton with justified lookaheads of a productive grammar - discharged on the real tables) and has no error rules: some fuel suffices and more fuel changes nothing"),
+    ("C06_machine_halts_also_with_error_rules", "machine_halts_checked", "the LR machine itself (shift/reduce/accept/error cell) halts on every token string, error rules or not: no endless chain of reductions"),
+    ("C06_parse_up_to_the_first_error_terminates", "first_error_or_end", "with error rules: the run ends or reaches recovery mode (what happens from there is covered by the two progress lemmas below, not by a termination theorem)"),
+    ("C06_every_action_is_viable", "action_viable_checked", "the reason: every reduction is made on a lookahead that continues some sentence"),
+    ("C06_halting_needs_justified_lookaheads_refuted", "halting_refuted_without_lookahead_generated", "REFUTED without the lookahead check: a table that passes validate and loops forever"),
+    ("C06_decides_the_language", "decides_language_checked", "hence parse is a decision procedure: accepted with a derivation tree iff derivable, rejected iff not"),
     ("C06_terminates_after_an_error_without_error_rules", "error_run_terminates", "without error rules a reported error ends the parse within stack-height further iterations"),
     ("C06_consume_mode_progress", "consume_progress", "every iteration in consume mode ends the run, leaves the mode or consumes one term"),
     ("C06_recovery_mode_progress", "recovery_progress", "every iteration in recovery mode ends the run, pops one state, shifts the error symbol or reduces"),
@@ -87,7 +103,7 @@ SPEC = {
     ("C08_whole_run_refines_spec", "C08_refines_run", "whole runs: whatever the declarative specification predicts, the driver does"),
     ("C08_whole_run_predicted_by_spec", "C08_run_predicted", "and whatever the driver does, the specification predicts")]),
  "C09": ("Failures are reported once, at the right place, and never silently",
-   ["Ctpg.Proofs.DriverBasics", "Ctpg.Proofs.DriverPos", "Ctpg.Proofs.ReportOne", "Ctpg.Proofs.ReportLang", "Ctpg.Proofs.ReportLazy", "Ctpg.Proofs.ReportViable", "Ctpg.Proofs.ReportHalt", "Ctpg.Proofs.ReportCex", "Ctpg.Proofs.LRComplete"],
+   ["Ctpg.Proofs.DriverBasics", "Ctpg.Proofs.DriverPos", "Ctpg.Proofs.ReportOne", "Ctpg.Proofs.ReportLang", "Ctpg.Proofs.ReportLazy", "Ctpg.Proofs.ReportViable", "Ctpg.Proofs.ReportHalt", "Ctpg.Proofs.ReportCex", "Ctpg.Proofs.LRComplete", "Ctpg.Valid.LRProductive", "Ctpg.Proofs.TermViable", "Ctpg.Proofs.TermAll"],
    [("C09_one_message", "one_message_quiet", "without error rules a quiet parse writes nothing on success and exactly one message on failure"),
     ("C09_one_message_any_verbosity", "one_message", "the same count among the verbose lines"),
     ("C09_message_position_and_byte", "one_message_pos", "the message carries the true position, and Unexpected character names the byte at that position"),
@@ -95,6 +111,7 @@ SPEC = {
     ("C09_error_not_later_than_necessary", "error_not_later_than_necessary", "immediate error detection: when the syntax error names term a after prefix u, no sentence has the prefix u ++ [a] (and at end of input the input is not a sentence)"),
     ("C09_lexer_not_consulted_beyond_the_offending_term", "syntax_error_lexer_lazy", "reported before any later input is examined"),
     ("C09_reject_iff_not_in_language_for_halting_runs", "reject_iff_not_in_language_halting", "empty result exactly when the input is not in the language (for runs that halt; halting on every non-sentence is not proved)"),
+    ("C09_reject_iff_not_in_language", "decides_language_checked", "never silently, unconditionally: for a table that passes term_checks and has no error rules, some fuel decides - derivable inputs are accepted with their tree, all others are rejected (and rejected runs write their one message, C09_one_message)"),
     ("C09_every_outcome", "tree_run_outcomes", "every outcome is: accepted with a derivation tree, rejected and not derivable, or out of fuel"),
     ("C09_shifted_prefix_is_viable_partial", "shifted_prefix_viable_partial", "the 'not earlier' half for productive grammars: what has been shifted is a prefix of a sentence"),
     ("C09_nonproductive_refuted", "shifted_prefix_not_viable", "REFUTED in general (known finding NP): a validated table can shift a term no sentence continues")]),
@@ -135,14 +152,17 @@ SPEC = {
 }
 def coq_type(imports, lemma):
     src = "".join(f"Require Import {m}.\n" for m in imports) + "Set Printing Width 100000.\nSet Printing Depth 100000.\n" + f"Check {lemma}.\n"
-    open("/tmp/_chk.v", "w").write(src)
-    out = subprocess.run(f"cd {COQ} && coqc -Q . Ctpg /tmp/_chk.v", shell=True, capture_output=True, text=True).stdout
+    open(f"{COQ}/Dbg_chk.v", "w").write(src)
+    out = subprocess.run(f"cd {COQ} && coqc -Q . Ctpg Dbg_chk.v", shell=True, capture_output=True, text=True).stdout
+    for ext in (".v", ".vo", ".vok", ".vos", ".glob"):
+        try: os.remove(f"{COQ}/Dbg_chk{ext}")
+        except OSError: pass
     m = re.search(r"^%s\s*:\s*(.*)\Z" % re.escape(lemma), out, re.S | re.M)
     if not m: raise SystemExit(f"cannot get type of {lemma}: {out[-500:]}")
     return " ".join(m.group(1).split())
 def main():
     for pid, spec in SPEC.items():
-        if spec is None: continue
+        if spec is None or (len(sys.argv) > 1 and pid not in sys.argv[1:]): continue
         title, mods, thms = spec
         imports = IMPORTS + mods
         L = [f"(* {pid} - {title}. Theorems only: each statement is printed by Coq from the lemma it is closed with. *)"]
